@@ -33,9 +33,15 @@ def make_labels(rng, n, ltype):
 REAL_SPECIALS = [0.0, 1.0, 2.0, 2.5, 1e-6, 1.0000001e-6, 3.0000000000000004, 1e-7, 0.5, 1.9999999999999998, 4.0]
 
 
+INTEGRAL = [False]      # when set, real weights are integer-valued (the rounding of fractional weights is C08's business)
+
+
 def weight_token(rng, wtype, allow_zero=True):
     if wtype == 'r':
-        w = rng.choice(REAL_SPECIALS) if rng.chance(0.7) else round(rng.unit() * 3.2, rng.rint(0, 3))
+        if INTEGRAL[0]:
+            w = float(rng.choice([0, 1, 1, 1, 2, 3]) if allow_zero else rng.choice([1, 1, 2, 3]))
+        else:
+            w = rng.choice(REAL_SPECIALS) if rng.chance(0.7) else round(rng.unit() * 3.2, rng.rint(0, 3))
         if not allow_zero and w <= EPS:
             w = 1.0
         return repr(float(w))
@@ -75,6 +81,15 @@ def gen_edges(rng, ltype, wtype, nmin=2, nmax=7, lmax=3, recmax=12, profile=None
         else:
             ws = [weight_token(rng, wtype) for _ in range(L)]
         recs.append((s, t, ws))
+    # extreme label values (limits of the label type), preferably as the very first source
+    if ltype in ('u', 'i') and rng.chance(0.2):
+        pool = ['18446744073709551615', '9223372036854775807', '4294967295', '2147483647', '0'] if ltype == 'u' else \
+               ['9223372036854775807', '-9223372036854775808', '2147483647', '-2147483648', '-1', '0']
+        ext = rng.choice(pool)
+        present = set(x for s_, t_, _ in recs for x in (s_, t_))
+        if ext not in present and recs:
+            old = recs[0][0] if rng.chance(0.7) else rng.choice(recs)[rng.below(2)]
+            recs = [(ext if s_ == old else s_, ext if t_ == old else t_, ws_) for s_, t_, ws_ in recs]
     # make sure there are at least 2 distinct labels in use
     used = set()
     for s, t, _ in recs:
